@@ -257,7 +257,9 @@ class Stepper(object):
                 return "whole:" + kind
             a.collab.begin(op.get("collab"))
             # (optionally) the very same instance OBJECT is validated by several validators at once
-            inst = self.instances[op["inst"]] if self.share_instances else copy.deepcopy(self.instances[op["inst"]])
+            from dsim.sim import materialise
+            inst = self.instances[op["inst"]] if (self.share_instances and not a.world.get("decimal_floats")) \
+                else materialise(self.instances[op["inst"]], a.world)
             self.task = IterTask(a, inst)
             self.phase = "iter"
         t = self.task
